@@ -222,6 +222,11 @@ class World(object):
                     host.h_entering(m)
         return rec
 
+    def rbudget(self, n):
+        """Bound on self-calls of generated functions (whole world)."""
+        self._rb = getattr(self, "_rb", 0) + 1
+        return self._rb <= n
+
     def rec_of(self, pyframe):
         for r in self.frames:
             if r.pyframe is pyframe:
